@@ -306,6 +306,60 @@ MULTI_DOSINI = {
 }
 
 
+# components that name one producer twice (relative + absolute spelling, or a literal repeat) next to other references
+def dup_refs_components(thorough):
+    """[(name, stage, references)]; producers gen, other, third live in stage 0."""
+    out = [
+        ('ca', 0, ['gen:ref', 'stage0.gen:ref', 'data/d.txt:ref']),
+        ('cb', 0, ['gen:ref', 'other:ref', 'gen:ref']),
+        ('cc', 0, ['stage0.other:ref', 'gen:ref', 'data/d.txt:ref', 'other:ref']),
+        ('cd', 1, ['stage0.gen:ref', 'stage0.other:ref', 'stage0.gen:ref', 'data/d.txt:copy']),
+        ('ce', 1, ['stage0.gen/out.txt:ref', 'stage0.gen:ref', 'stage0.gen/out.txt:ref']),
+    ]
+    if thorough:
+        out.append(('cf', 0, ['third:ref', 'gen:ref', 'data/d.txt:ref', 'stage0.gen:ref', 'other:ref']))
+        out.append(('cg', 1, ['stage0.third:ref', 'stage0.other:ref', 'data/d.txt:ref', 'stage0.third:ref',
+                              'stage0.gen:output']))
+    return out
+
+
+def dup_refs_flowir(thorough):
+    comps = [{'name': n, 'stage': 0, 'command': {'executable': 'echo', 'arguments': n}} for n in ('gen', 'other', 'third')]
+    for name, stage, refs in dup_refs_components(thorough):
+        used = ' '.join(r for r in refs if not r.endswith(':copy'))
+        comps.append({'name': name, 'stage': stage, 'command': {'executable': 'echo', 'arguments': used},
+                      'references': list(refs)})
+    return {'components': comps}
+
+
+def dup_refs_dosini(thorough):
+    stages = {0: [(n, [('executable', 'echo'), ('arguments', n)]) for n in ('gen', 'other', 'third')], 1: []}
+    for name, stage, refs in dup_refs_components(thorough):
+        used = ' '.join(r for r in refs if not r.endswith(':copy'))
+        stages[stage].append((name, [('executable', 'echo'), ('arguments', used), ('references', ' '.join(refs))]))
+    return {'conf/experiment.conf': [], 'conf/stages.d/stage0.conf': stages[0], 'conf/stages.d/stage1.conf': stages[1]}
+
+
+def dup_refs_dsl(thorough):
+    """DSL can only express it by mixing an OutputReference with the legacy spelling of the same producer."""
+    consumers = [('ua', {'a': '<gen>:ref', 'b': 'gen:ref', 'c': '<other>:ref'}),
+                 ('ub', {'a': 'stage0.other:ref', 'b': '<other>:ref', 'c': 'data/d.txt:ref'})]
+    if thorough:
+        consumers.append(('uc', {'a': '<gen>:ref', 'b': 'gen:ref', 'c': '<other>:ref', 'd': '<third>:ref'}))
+    steps = {'gen': 'producer', 'other': 'producer', 'third': 'producer'}
+    execute = [{'target': '<%s>' % p, 'args': {'msg': p}} for p in ('gen', 'other', 'third')]
+    comps = [{'signature': {'name': 'producer', 'parameters': [{'name': 'msg'}]},
+              'command': {'executable': 'echo', 'arguments': '%(msg)s'}}]
+    for name, args in consumers:
+        steps[name] = 'consume-' + name
+        execute.append({'target': '<%s>' % name, 'args': args})
+        comps.append({'signature': {'name': 'consume-' + name, 'parameters': [{'name': k} for k in args]},
+                      'command': {'executable': 'cat', 'arguments': ' '.join('%%(%s)s' % k for k in args)}})
+    return {'entrypoint': {'entry-instance': 'main', 'execute': [{'target': '<entry-instance>', 'args': {}}]},
+            'workflows': [{'signature': {'name': 'main', 'parameters': []}, 'steps': steps, 'execute': execute}],
+            'components': comps}
+
+
 # packages that must be rejected (two independent problems each): the outcome must not depend on the process either
 FLOWIR_BROKEN = {
     'components': [
@@ -491,6 +545,17 @@ def build(root, thorough):
     for tid, mode, package, plat, inputs, is_small in base:
         add(tid, 'hash', tid, mode, package, plat, inputs=inputs, sweep=True, small=is_small,
             descr={'package': os.path.basename(package), 'mode': mode, 'platform': plat})
+
+    # ---- components whose reference list names one producer twice, in every document kind that can express it
+    p = write_yaml_package(pk, 'duprefs', dup_refs_flowir(thorough), DSL_FILES)
+    pd = write_ini_package(pk, 'dosduprefs', dup_refs_dosini(thorough), DSL_FILES)
+    ps = write_yaml_package(pk, 'dslduprefs', dup_refs_dsl(thorough), DSL_FILES, main='dsl.yaml')
+    # (validateExperiment of the exp entry point rejects a reference that is declared twice as "not used": conf / graph)
+    for name, package in (('duprefs', p), ('dosduprefs', pd), ('dslduprefs', ps)):
+        for mode in ('conf', 'graph'):
+            tid = 'hash/%s/%s/None' % (name, mode)
+            add(tid, 'hash', tid, mode, package, sweep=True, small=True,
+                descr={'package': os.path.basename(package), 'mode': mode})
 
     # ---- package directories that are readable in more than one format (every combination of the formats the factory
     #      knows that can be written by hand: dosini, dsl, flowir; cwl needs cwltool documents and is left out). The
